@@ -121,7 +121,9 @@ func c13Check(w *mc.W, st *c13State, b []byte, unit string) {
 	// defaults after anything: right after this input — accepted or rejected at whatever point — a
 	// graphic without metadata chunks gets the default viewBox and the default palette (a decoder
 	// that recycles its metadata must not let one input's chunks leak into the next decode)
-	if !bytes.Equal(b, c13Canary) {
+	// (after every other input only, chosen by the input's content: the extra decodes would themselves
+	// refresh whatever a decoder remembers about its last call, and so hide a stale memo)
+	if !bytes.Equal(b, c13Canary) && len(b) > 0 && (len(b)+int(b[len(b)-1]))%2 == 0 {
 		st.rdc.ResetLog()
 		cerr, cpnc, _ := safeDecode(&st.rdc, c13Canary)
 		want := rec.Call{M: rec.MReset, VB: ivg.DefaultViewBox, Pal: &ivg.DefaultPalette}
